@@ -20,7 +20,7 @@ META["C18"] = {
 }
 
 LITS = ["'C:\\usr\\share\\ford'", "'\\frac{\\alpha}{\\beta}'", "'<b>bold</b>'", "\"a < b & c > d\"", "'it''s'", "\"say \"\"hi\"\"\"", "'a  b   c'", "'back\\slash'", "'\"0\"'", "\"'1'\"",
-        "'&amp;'", "'*not emphasised*'", "'[[link]]'", "''", "' '", "'x = \"1\"'", "'!not a comment'", "'a;b'"]
+        "'&amp;'", "'*not emphasised*'", "'[[link]]'", "''", "' '", "'x = \"1\"'", "'!not a comment'", "'a;b'", "'(a,i0)'", "\";,&!\"", "'x,y , z'"]
 
 
 def rewrites(lit):
